@@ -16,6 +16,14 @@ ASSUMPTIONS = ["floating-point forward error of the vector kernels is bounded by
                "polynomial right-hand sides (exactly evaluable) stand for arbitrary right-hand sides; the theorems quantify over every f"]
 
 
+def ff(x):
+    """float of a (possibly astronomically large) rational"""
+    try:
+        return float(x)
+    except OverflowError:
+        return math.inf if x > 0 else -math.inf
+
+
 def frs(a):
     return [Fr(float(x)) if np.asarray(x).dtype != np.longdouble else Fr(*[int(v) for v in np.longdouble(x).as_integer_ratio()]) for x in np.reshape(a, (-1,))]
 
@@ -42,7 +50,7 @@ def spec_explicit(cls, rhs, t, y, h):
 
 def close(a, b, scale, T):
     eps = float(np.finfo(T).eps)
-    return all(abs(float(x) - float(y)) <= 2000 * eps * scale for x, y in zip(a, b))
+    return all(abs(ff(x) - ff(y)) <= 2000 * eps * scale for x, y in zip(a, b))
 
 
 def gen_case(rng, s, T):
@@ -123,15 +131,18 @@ def call_sequence_block(ctx, rng):
             continue
         for rep in range(2 if ctx.quick() else 10):
             n = rng.choice([1, 2, 3])
-            rhs = polyrhs.random_poly(rng, n, max_deg=2 if s <= 7 else 1)
+            # two right-hand sides selected by a constant: a change of `constants` between two chained calls changes the slopes
+            rhs_by_mode = [polyrhs.random_poly(rng, n, max_deg=2 if s <= 7 else 1), polyrhs.random_poly(rng, n, max_deg=2 if s <= 7 else 1)]
+            rhs = rhs_by_mode[0]
+            mode = 0
             T = np.float64
             integ = cls((n,), dtype=T, rtol=1e-1, atol=1e-1)
-            f = DS.DiffRHS(rhs)
+            f = DS.DiffRHS(lambda t, y, m=0: rhs_by_mode[int(m)](t, y))
             t = Fr(rng.randint(-8, 8), 8)
             y = [Fr(rng.randint(-16, 16), 16) for _ in range(n)]
             # (a second chained call really continues from the first one's end: whatever the integrator carries over is in use
             # when the following call starts somewhere else)
-            plan = ["chain", "chain", "jump", "same-start-other-step", "chain", "chain", "jump", "chain"]
+            plan = ["chain", "chain", "jump", "same-start-other-step", "chain", "chain-new-constants", "chain", "jump", "chain-new-constants", "chain"]
             y_np = np.array([float(v) for v in y], dtype=T)
             t_np = T(float(t))
             for kind in plan:
@@ -139,15 +150,18 @@ def call_sequence_block(ctx, rng):
                 if kind == "jump":
                     t_np = T(rng.randint(-8, 8) / 8.0)
                     y_np = np.array([rng.randint(-16, 16) / 16.0 for _ in range(n)], dtype=T)
+                if kind == "chain-new-constants":
+                    mode = 1 - mode
+                    rhs = rhs_by_mode[mode]
                 try:
-                    new_dt, (dT, dY) = integ(f, t_np, y_np.copy(), {}, T(float(h)))
+                    new_dt, (dT, dY) = integ(f, t_np, y_np.copy(), dict(m=mode), T(float(h)))
                 except Exception as e:
                     break
                 lines.append("rkstep %s %d %s %s %s %s -" % (cls.__name__, n, rhs.proto(), q(Fr(float(t_np))), qlist(frs(y_np)), q(Fr(float(dT)))))
                 cases.append((cls, kind, rhs, float(t_np), [float(v) for v in y_np], float(dT), np.array(dY), s))
                 if kind != "same-start-other-step":
                     pass
-                if kind in ("chain", "jump"):
+                if kind in ("chain", "jump", "chain-new-constants"):
                     keep_t, keep_y = t_np, y_np.copy()
                     t_np = T(t_np + dT)
                     y_np = y_np + dY
@@ -179,9 +193,12 @@ def implicit_block(ctx, rng):
         for T in (np.float64, np.longdouble):
             if T is np.longdouble and (ctx.quick() and rng.random() < 0.6):
                 continue
-            for _ in range(reps):
+            for rep_i in range(reps + 2):
                 n = rng.choice([1, 2, 3])
-                rhs = polyrhs.random_poly(rng, n, max_deg=2, scale=0.5)
+                # (the last two cases of each method are steep: L|h| ~ 1e2..1e4, where a nonlinear solver may stop on a tiny update
+                # while the stage equations are still far from solved)
+                steep = rep_i >= reps
+                rhs = polyrhs.random_poly(rng, n, max_deg=2, scale=0.5) if not steep else polyrhs.random_poly(rng, n, max_deg=2, scale=rng.choice([1024, 8192, 65536]))
                 t = Fr(rng.randint(-8, 8), 8)
                 y = [Fr(rng.randint(-8, 8), 16) for _ in range(n)]
                 h = Fr(rng.choice([1, 2, 3]), rng.choice([16, 32])) * rng.choice([1, -1])
@@ -194,10 +211,19 @@ def implicit_block(ctx, rng):
                     integ.initial_rhs = f(T(float(t)), y_np)
                     integ.step(f, T(float(t)), y_np, {}, T(float(h)))
                 except Exception as e:
+                    if steep:
+                        # (singular stage matrix / overflow on a steep problem: __call__ retries such a step in higher precision or shorter)
+                        ctx.count("implicit:steep:step-raised:" + type(e).__name__)
+                        continue
                     ctx.oracle("implicit-step-runs", False, dict(kind="implicit-step", method=cls.__name__, rhs=rhs.proto()), what="step raised %r" % (e,))
                     continue
                 flag = bool(integ.solver_dict["newton_iteration_success"])
                 stg = np.array(integ.stage_values)
+                if not np.all(np.isfinite(stg.astype(np.float64))):
+                    # non-finite stages: must not be flagged as converged; nothing to substitute into the stage equations
+                    ctx.oracle("accepted-stages-solve-equations", not flag, dict(kind="implicit-step", method=cls.__name__, rhs=rhs.proto()), what="step with non-finite stages flagged as converged")
+                    ctx.count("implicit:non-finite-stages")
+                    continue
                 flat = []
                 for i in range(s):
                     flat += frs(stg[..., i])
@@ -210,14 +236,19 @@ def implicit_block(ctx, rng):
         if len(toks) != 2:
             ctx.corr("implicit-step", False, dict(inp, model=o[:200]))
             continue
-        res = float(Fr(toks[0]))
+        res = ff(Fr(toks[0]))
         m_d = [Fr(x) for x in toks[1].split(",")]
         desired = 0.5 * (tol + tol * max(abs(float(v)) for v in y))
-        ctx.corr("implicit-increment", close(dS, m_d, max(1.0, max(abs(float(v)) for v in m_d)) * 10, T), dict(inp, impl=[float(v) for v in dS], model=[float(v) for v in m_d]))
+        # (the increment of an UNCONVERGED step on a steep problem is a difference of huge stage values: cancellation, not comparable)
+        steep_case = max(abs(k) for (_, k, _, _) in rhs.terms) > 100
+        if steep_case and not flag:
+            ctx.count("implicit:steep:unconverged-increment-not-compared")
+        else:
+            ctx.corr("implicit-increment", close(dS, m_d, max(1.0, max(abs(ff(v)) for v in m_d)) * 10, T), dict(inp, impl=[float(v) for v in dS], model=[ff(v) for v in m_d]))
         if flag:
             ctx.oracle("accepted-stages-solve-equations", res <= 50 * desired * math.sqrt(n * len(m_d)) + 1e-13, dict(inp, residual=res, desired_tol=desired),
                        what="step flagged converged but the stage equations have residual %.3e (solver tolerance %.3e)" % (res, desired))
-        ctx.count("implicit:%s:%s" % (np.dtype(T).name, "converged" if flag else "not-converged"))
+        ctx.count("implicit:%s:%s:%s" % (np.dtype(T).name, "steep" if max(abs(k) for (_, k, _, _) in rhs.terms) > 100 else "mild", "converged" if flag else "not-converged"))
         ctx.nontrivial((cls.__name__, np.dtype(T).name, rhs.proto(), str(h)))
     if lines:
         ctx.sample(dict(kind="implicit-step", op=lines[0][:240], model=outs[0][:120]))
